@@ -162,13 +162,13 @@ func (w *c10World) callback(pub *c10Pub, s *c10Sub, v int) {
 	hasHandler := pub.handler != nil
 	w.mu.Unlock()
 	w.record(c10Ev{pub.idx, s.id, v, onH})
-	for _, a := range s.script {
+	for j, a := range s.script {
 		switch {
 		case a == "n":
 			w.subscribe(pub, nil)
 		case a == "p":
 			if w.getDepth(gid) < 3 && !hasHandler {
-				w.publish(pub, v*100+s.id)
+				w.publish(pub, v*1000+100*j+s.id)
 			}
 		case strings.HasPrefix(a, "u"):
 			d, err := strconv.Atoi(strings.TrimPrefix(a[1:], "+"))
